@@ -86,6 +86,7 @@ def intTy? (s : String) : Option IntTy :=
   match s with
   | "int" => some ⟨true, 32⟩ | "uint" => some ⟨false, 32⟩
   | "long" => some ⟨true, 64⟩ | "ulong" => some ⟨false, 64⟩
+  | "lng" => some ⟨true, 64⟩ | "ulng" => some ⟨false, 64⟩
   | "short" => some ⟨true, 16⟩ | "ushort" => some ⟨false, 16⟩
   | _ => none
 
@@ -115,7 +116,7 @@ def splitSuffixNat (s : String) : Option (String × Nat) :=
 
 /-- a negative literal for an unsigned target: not claimed, not compared (the harness prints the same token) -/
 def noClaim (ty : String) (text : Str) : Bool :=
-  (ty == "uint" || ty == "ulong" || ty == "ushort" || ty == "vu" || ty.startsWith "au") && text.contains '-'
+  (ty == "uint" || ty == "ulong" || ty == "ulng" || ty == "ushort" || ty == "vu" || ty.startsWith "au") && text.contains '-'
 
 def getOp (ty : String) (text : Str) : String :=
   if noClaim ty text then "noclaim" else
@@ -128,6 +129,8 @@ def getOp (ty : String) (text : Str) : String :=
     | "dbl" => showOpt showDbl (parseDouble text)
     | "flt" => showOpt showFlt (parseFloat text)
     | "chr" => showOpt showChr (parseScalar extractChar text)
+    | "schr" => showOpt showChr (parseScalar extractChar text)
+    | "uchr" => showOpt showChr (parseScalar extractChar text)
     | "vf" => showOpt showFltL (parseVector parseFloat text)
     | "vc" => showOpt showChrL (parseVector (parseScalar extractChar) text)
     | "vi" => showOpt showIntL (parseVector (parseInt ⟨true, 32⟩) text)
@@ -146,6 +149,7 @@ def getOp (ty : String) (text : Str) : String :=
       | some ("af", n) => showOpt showFltL (parseRange extractFloat n text)
       | some ("ac", n) => showOpt showChrL (parseRange extractChar n text)
       | some ("bs", n) => showOpt showBoolL (parseBitset n text)
+      | some ("ab", n) => showOpt showBoolL (parseRange extractBool01 n text)
       | _ => "bad-op"
 
 /-- `key=value` (operator[] assignment) or `key=@` (non-const `sub(key)`) -/
